@@ -268,3 +268,62 @@ def ldexp_frexp_concrete(p, m):
         return ok, 'frexp(%r) = (%r, %r)' % (x, y._mpf_, n)
     finally:
         mp.prec = 53
+
+
+def nint_distance_q(p):
+    """mp.nint_distance(x) for an exact rational x = P/Q (mpq with symbolic numerator and denominator): n is a nearest integer
+    and 2**(d-1) < |x - n| < 2**(d+1) (d = -inf exactly when x is an integer)"""
+    from mpmath import rational
+    from pysym import mpmodels
+    pbc, qbc = p['pbc'], p['qbc']
+    mp = _ctx(53)
+    ob = Ob(wbump(p, pbc + 2 * qbc + 70), timeout_s=p.get('_t', 60), mul_precise_bits=4096, models=mpmodels.mp_models(contract_divmod=True, contract_sqrt=False))
+    G.stats['DIV_PRECISE_BITS'] = 4096
+    Pa = ob.int('P_abs', 1 << (pbc - 1), (1 << pbc) - 1) if pbc > 1 else 1
+    Pn = ob.bit('P_neg')
+    P = V.merge(zt(Pn) == B(1), V.neg(Pa), Pa)
+    Q = ob.int('Q', 1 << (qbc - 1), (1 << qbc) - 1) if qbc > 1 else 1
+    x = object.__new__(rational.mpq)
+    x._mpq_ = (P, Q)
+    outs = ob.run(mp.nint_distance, [x])
+    Pt, Qt = zt(P), zt(Q)
+
+    def good(val, st):
+        if not isinstance(val, tuple) or len(val) != 2:
+            return False
+        n, d = val
+        if not isinstance(n, (SInt, int)):
+            return False
+        nt = zt(n)
+        rem = Pt - nt * Qt
+        ar = z3.If(rem < 0, -rem, rem)
+        nearest = (ar << 1) <= Qt
+        if _is_obj_tuple(d, FNINF):
+            return z3.And(rem == B(0))
+        if not isinstance(d, (SInt, int)):
+            return False
+        dt = zt(d)
+        # 2**(d-1) * Q < |P - nQ| < 2**(d+1) * Q ;  d <= 0 here (|x - n| <= 1/2): multiply through by 2**(1-d)
+        sh = B(1) - dt
+        rng = z3.And(dt <= B(0), dt >= B(-(pbc + qbc + 4)))
+        lhs = ar << sh                      # |rem| * 2**(1-d)
+        return z3.And(rem != B(0), nearest, rng, Qt < lhs, lhs < (Qt << 2))
+    return finish(ob, ob.prove(outs, good))
+
+
+def nint_distance_q_concrete(p, m):
+    from mpmath import rational
+    mp = _ctx(53)
+    pbc, qbc = p['pbc'], p['qbc']
+    Pa = 1 if pbc == 1 else m['P_abs']
+    P = -Pa if m.get('P_neg') else Pa
+    Q = 1 if qbc == 1 else m['Q']
+    x = object.__new__(rational.mpq)
+    x._mpq_ = (P, Q)
+    n, d = mp.nint_distance(x)
+    v = Fraction(P, Q)
+    diff = abs(v - n)
+    if diff == 0:
+        return d == mp.ninf, 'integer input but d = %r' % (d,)
+    ok = diff <= Fraction(1, 2) and type(d) is int and Fraction(2) ** (d - 1) < diff < Fraction(2) ** (d + 1)
+    return ok, 'nint_distance(mpq(%d, %d)) = (%r, %r); |x-n| = %s' % (P, Q, n, d, diff)
